@@ -858,6 +858,17 @@ func (env *Env) call(e *Expr) Term {
 		g := "Gcnt_" + e.Args[0].Name
 		vc.compDecl(g, SInt)
 		return mk(vc.get(env.heap(), g), SInt).withType(types.Typ[types.Int])
+	case "lastarg":
+		// lastarg(F): ghost - the recorded argument of the latest call of F ("records arg <param>")
+		if len(e.Args) != 1 || e.Args[0].Op != "ident" {
+			efail("lastarg(FunctionName)")
+		}
+		g := "Garg_" + sanitize(e.Args[0].Name)
+		srt, ok := vc.compSort[g]
+		if !ok {
+			efail("no call of %s recorded here", e.Args[0].Name)
+		}
+		return mk(vc.get(env.heap(), g), srt).withType(types.Typ[types.Int])
 	case "nerrs":
 		vc.compDecl("Gerr_n", SInt)
 		return mk(vc.get(env.heap(), "Gerr_n"), SInt).withType(types.Typ[types.Int])
